@@ -313,6 +313,8 @@ CHECKS["C02"] = {
 CHECKS["C02"]["level_text"] += (" Part stepped: the same promise for plain Put and Delete issued after a stop, on members whose routing push and balancer only run when the harness says so - the table is pushed, nothing moves - so that a Delete "
                                 "that does not reach a copy is told from the recorded finding (a Delete that meets a fragment in flight): after the stop an acknowledged Delete must leave no copy on any survivor and read not-found everywhere, an acknowledged Put must be read everywhere.")
 CHECKS["C02"]["rule"] += "; part stepped: non-trivial = a key of which the stopped member held a copy is deleted after the stop"
+CHECKS["C02"]["level_note"] += ("; a deleted key that reads an old value is attributed to the recorded finding (KNOWN_FINDINGS.txt) only on what the check saw: the Delete ran while the partition's owner lists were being re-arranged after a stop, "
+                               "or the value that came back had been seen, since the key's last acknowledged Put, in a fragment that the partition's primary owner does not list (label unlisted-copies-seen); any other wrong read is a violation")
 
 CHECKS["C03"] = {
     "level": "fault_enumeration",
